@@ -384,7 +384,7 @@ impl Part for CloseNoticeRace {
     fn name(&self) -> &'static str { "close-notice-race" }
     fn deterministic(&self) -> bool { false }
     fn rule(&self) -> &'static str {
-        "one side's active-peer set (hook H6) with the two real connections of a mutual dial; per round: the losing connection is registered, then on two OS threads released by a barrier the winning connection is added while the loser's handler reports its end (remove_with_stable_id with the loser's id); oracle: whichever order the two calls take effect in, the set ends up holding the winner (the end of a replaced connection never removes its replacement); real threads: interleavings are sampled; non-trivial = every case; distinct by case"
+        "one side's active-peer set (hook H6) with the two real connections of a mutual dial; per round: the losing connection is registered, then on two OS threads released by a barrier the winning connection is added while the loser's handler reports its end (remove_with_stable_id with the loser's id); oracle: whichever order the two calls take effect in, the set ends up holding the winner (the end of a replaced connection never removes its replacement); real threads: interleavings are sampled, with the relative start of the two calls steered towards their crossover by bisection on which one finished first; non-trivial = every case; distinct by case"
     }
     fn strategy(&self, _t: Tier) -> BoxedStrategy<RaceCase> {
         (0u8..12, 0u8..12, 300u16..3000).prop_map(|(key_a, key_b, rounds)| RaceCase { key_a, key_b, rounds }).boxed()
@@ -401,6 +401,7 @@ impl Part for CloseNoticeRace {
             let a_greater = ea.id.0 > eb.id.0;
             let (winner, w_origin, loser, l_origin) = if a_greater { (a_out, ConnectionOrigin::Outbound, a_in, ConnectionOrigin::Inbound) } else { (a_in, ConnectionOrigin::Inbound, a_out, ConnectionOrigin::Outbound) };
             let mut removed_winner = 0u32;
+            let (mut skew, mut step): (i64, i64) = (0, 4_000);
             for round in 0..case.rounds {
                 let driver = ActivePeersDriver::new(ea.id, 64);
                 let (_, l_sid, _) = driver.add(loser.clone(), l_origin).map_err(|e| Fail::violation("c05:add-failed", e.to_string()))?;
@@ -408,14 +409,22 @@ impl Part for CloseNoticeRace {
                 let (d1, d2, b1, b2) = (driver.clone(), driver.clone(), barrier.clone(), barrier.clone());
                 let w = winner.clone();
                 let peer = eb.id;
-                // sweep the relative start of the two calls (adding a connection does some work before
-                // it reaches the set, reporting an end does not): one of them spins a little first
+                // Home in on the skew at which the two calls overlap: each round reports which call finished
+                // first, and the start of the other one is delayed (by spinning) a little more or less, with a
+                // shrinking step - a bisection that then keeps oscillating around the crossover.
                 let spin = |n: u32| { let mut x = 0u64; for i in 0..n { x = x.wrapping_add(i as u64); std::hint::black_box(x); } };
-                let (s1, s2) = if round % 2 == 0 { (0, (round as u32 / 2 % 250) * 400) } else { ((round as u32 / 2 % 50) * 40, 0) };
-                let t1 = std::thread::spawn(move || { b1.wait(); spin(s1); d1.add(w, w_origin).map(|(_, sid, _)| sid).map_err(|e| e.to_string()) });
-                let t2 = std::thread::spawn(move || { b2.wait(); spin(s2); d2.remove_with_stable_id(peer, l_sid, DisconnectReason::ConnectionClosed); });
-                let w_sid = match t1.join() { Ok(Ok(s)) => s, Ok(Err(e)) => vfail!("c05:add-failed", "{e}"), Err(_) => return Err(Fail::Inconclusive("thread panicked".into())) };
-                let _ = t2.join();
+                let (s1, s2) = if skew >= 0 { (0u32, skew as u32) } else { ((-skew) as u32, 0u32) };
+                let t1 = std::thread::spawn(move || { b1.wait(); spin(s1); let r = d1.add(w, w_origin).map(|(_, sid, _)| sid).map_err(|e| e.to_string()); (r, std::time::Instant::now()) });
+                let t2 = std::thread::spawn(move || { b2.wait(); spin(s2); d2.remove_with_stable_id(peer, l_sid, DisconnectReason::ConnectionClosed); std::time::Instant::now() });
+                let (r1, t1_done) = match t1.join() { Ok(x) => x, Err(_) => return Err(Fail::Inconclusive("thread panicked".into())) };
+                let t2_done = t2.join().map_err(|_| Fail::Inconclusive("thread panicked".into()))?;
+                // the report finished first => start it later next time
+                if t2_done < t1_done { skew += step; } else { skew -= step; }
+                skew = skew.clamp(-400_000, 400_000);
+                step = (step * 9 / 10).max(6);
+                if round % 64 == 63 { step = step.max(200); } // re-open the search now and then (the crossover drifts)
+                let t1 = r1;
+                let w_sid = match t1 { Ok(s) => s, Err(e) => vfail!("c05:add-failed", "{e}") };
                 match driver.get(&eb.id) {
                     Some(g) if g.0 == w_sid => {}
                     Some(g) => vfail!("c05:wrong-survivor", "round {round}: the set holds connection {} after the winner (stable id {w_sid}) was added", g.0),
@@ -437,6 +446,6 @@ pub fn run(tier: Tier) -> i32 {
     ctx.run_part(Networks, tier.pick(8_000, 200_000));
     ctx.assume("the real-time part costs wall-clock time and is not a pure function of the seed; its oracle only looks at the converged end state");
     ctx.run_part_threads(NetworksRealTime, tier.pick(32, 320), 16);
-    ctx.run_part_threads(CloseNoticeRace, tier.pick(16, 300), 4);
+    ctx.run_part_threads(CloseNoticeRace, tier.pick(32, 400), 4);
     ctx.finish()
 }
